@@ -181,7 +181,7 @@ def run(ctx):
                     hits[name] = True
                     form = ('str' if rec2['str'] == rec['str'] else '') + ('int' if rec2['int'] == rec['int'] else '')
                     differ = sorted(k for k in a if a[k] != rec2['a'].get(k))
-                    ctx.report(name, 'different keys share an identity', dict(a, sig=form + ':' + ','.join(differ)),
+                    ctx.report(name, 'different keys share an identity', dict(a, sig=form + ':' + (differ[0] if len(differ) == 1 else 'several parameters')),
                                dict(protocol=name, params=a, other=rec2['a'], str=[rec['str'], rec2['str']], int=[rec['int'], rec2['int']]))
                     break
                 if key2 != key and 'got' in rec2 and len(c.normalized_rlc) == 1:
@@ -189,7 +189,7 @@ def run(ctx):
                         if rec2['got'] == list(c.normalized_rlc[0]):
                             hits[name] = True
                             differ = sorted(k for k in a if a[k] != rec2['a'].get(k))
-                            ctx.report(name, 'code equals the timings of another key', dict(a, sig=','.join(differ)),
+                            ctx.report(name, 'code equals the timings of another key', dict(a, sig=(differ[0] if len(differ) == 1 else 'several parameters')),
                                        dict(protocol=name, params=a, other=rec2['a']))
                             break
                     except Exception:  # noqa
